@@ -425,7 +425,7 @@ class Impl:
 # negative powers, division, substitution, arithmetic with plain sympy expressions, exception classes.
 # A special evaluation is ("special", [spec]) with a JSON spec; sides may also be ("vec", fn(sp, st)).
 
-_T = sympy.Symbol("t")
+_T = sympy.Symbol("tau")  # must differ from every operator label (labels are sympy Symbols too: xreplace would rename the operator)
 _K = sympy.Symbol("k", integer=True, positive=True)
 
 
@@ -558,10 +558,6 @@ def special_sides(spec, impl):
         return ("(t*(%s) + t^2*(%s)).%s(t=%s)" % (nc.tree_str(t1, modes), nc.tree_str(t2, modes), how, v), degree(ref), ("tree", ref), ("nof", y))
     if kind == "mixed":  # arithmetic of a form with a plain sympy expression on either side
         X, E, op = impl.build(spec["x"]), nc.to_sympy(spec["e"], ops), spec["op"]
-        from pymablock.number_ordered_form import find_operators, operator_types
-        written = {str(a_.name) for t_ in operator_types for a_ in sympy.sympify(E).atoms(t_)}
-        if not written <= {str(o_.name) for o_ in find_operators(sympy.sympify(E))}:
-            return ("custom", None)  # reported defect of find_operators (vanishing term hides its operator): not compared
         y = {"radd": lambda: E + X, "add": lambda: X + E, "sub": lambda: X - E, "rsub": lambda: E - X,
              "rmul": lambda: E * X, "mul": lambda: X * E}[op]()
         if not isinstance(y, NumberOrderedForm):  # e.g. expr - form falls back to a sympy Add
@@ -658,6 +654,8 @@ def special_cases(rng):
     for op in rng.sample(["radd", "add", "sub", "rsub", "rmul", "mul"], 3):
         modes = nc.rand_modes(rng, 1, 3)
         case(modes, dict(sp="mixed", op=op, x=small(rng, modes), e=small(rng, modes)))
+    # corpus (finding D25): plain expression with a vanishing fermionic term, a + f† N_f, added to a form from the left
+    case(["B", "F"], dict(sp="mixed", op="radd", x=["mul", ["num", 0], ["op", 1, 0]], e=["add", ["op", 0, 0], ["mul", ["op", 1, 1], ["num", 1]]]))
     # symbolic powers, nilpotency, exception classes
     modes = [rng.choice("BL")]
     case(modes, dict(sp="powsym", mode=0, dag=rng.randint(0, 1), c=str(Fr(rng.choice([1, 2, 3]), rng.choice([1, 2])))), [[0]])
